@@ -2,7 +2,10 @@ from common import COMMON_TB
 
 CFG = {
     "technique": "Lean 4 coherence invariant (memory caches vs database rows) over bracketed operation histories of the "
-                 "AddrLock model + differential run with a second Manager opened on the same database after every bracket",
+                 "AddrLock model (manager level) and of the WalletRestart model (wallet requests) + two differential engines: "
+                 "addrmgr-lock (a second Manager opened on the same database after every bracket) and wallet-restart (a second "
+                 "wallet.Wallet opened on a copy of the database file after every request); both inject rollbacks and COMMIT "
+                 "failures through a walletdb decorator",
     "level_text": "C08 is stated as: at every commit boundary every query of the property answers the same on the running "
                   "manager and on a manager freshly opened on the same database. Proved in Lean from a coherence "
                   "invariant that every operation preserves inside COMMITTED brackets; rolled-back / failed-commit "
@@ -10,14 +13,18 @@ CFG = {
                   "mutators are shown by counter-example theorems and Go replays to leave memory ahead of disk.",
     "level_note": "Proved: coherent caches answer every query as a reopened manager; coherence is an invariant of every history of single-transaction operations (C08_mem_eq_reopen_partial); a rolled-back NextAddresses keeps the index and the next request issues what a restart would (C08_rollback_keeps_index / _next_after_rollback). PARTIAL on the current tree for explicit multi-operation brackets and rollbacks after success: after a rolled-back or failed transaction the running manager keeps eager "
                   "cache updates (address cache, account name, extendAddresses indices, imports, sync state). These are "
-                  "reported as findings with stable oracle keys (C08 key=rollback.*); the theorems that hold are proved, "
+                  "reported as findings with stable, call-site specific oracle keys (engine addrmgr-lock: C08 key=<Op>.rollback.*, "
+                  "<Op>.failed-op.*, <Op>.committed.*; engine wallet-restart: <WalletOp>.commit-failed.* and "
+                  "<WalletOp>DryRun.*; all listed in known-findings.txt); the theorems that hold are proved, "
                   "the others carry explicit hypotheses.",
-    "level_note_wallet": " Wallet level (engine wallet-restart, model WalletRestart, theorems C08_wallet_*): proved for ALL histories of wallet requests "
+    "level_note_wallet": " Wallet level (engine wallet-restart, model WalletRestart, theorems C08_wallet_*; the history theorems carry the suffix _partial because they assume NoEagerCommitFail, see below): proved for all such histories of wallet requests "
                          "(NewAddress, NewChangeAddress, CurrentAddress, CreateSimpleTx dry/real/failing, FundPsbt, ImportAccountDryRun ok/failing, ImportAccount, "
                          "RenameAccount, NextAccount, Lock/Unlock): dry runs and failed requests never change the database image; the account cache stays coherent; "
                          "AccountProperties / AccountNumber / AccountName / next address of every branch agree with a restarted wallet; NewAddress / NewChangeAddress "
-                         "return what a restarted wallet returns. PARTIAL: AddressInfo/HaveAddress (false for addresses of rolled-back transactions, F9: open finding "
-                         "C08 key=CreateSimpleTxDryRun.address-cache-not-reverted, theorem C08_wallet_counterexample_dryrun_address_cache; hence the suffix of "
+                         "return what a restarted wallet returns (C08_wallet_dryrun_keeps_disk / _failed_keeps_disk unconditionally; C08_wallet_coherent_invariant_partial, "
+                         "_committed_eq_reopen_partial, _dryrun_keeps_next_partial, _failed_keeps_next_partial, _next_issue_eq_reopen_partial, "
+                         "_current_address_eq_reopen_partial, _no_phantom_account_partial under NoEagerCommitFail). PARTIAL: AddressInfo/HaveAddress (false for addresses of rolled-back transactions, F9: open finding "
+                         "C08 key=CreateSimpleTxDryRun.address-cache-not-reverted, theorem C08_wallet_counterexample_dryrun_address_cache; a second reason for the suffix of "
                          "C08_wallet_committed_eq_reopen_partial); and a failed COMMIT of ImportAccount / RenameAccount (eager cache mutators, hypothesis NoEagerCommitFail of the "
                          "history theorems, counter-examples C08_wallet_counterexample_import_commit_failed / _rename_commit_failed, oracle keys <WalletOp>.commit-failed.*). "
                          "Failed commits of NewAddress / NewChangeAddress / CreateSimpleTx ARE covered (injected by a walletdb decorator, op flag cf=1; "
@@ -31,7 +38,7 @@ CFG = {
     "trusted_base": COMMON_TB + [
         "hand-written model BtcwVerif/Model/AddrLock.lean (tied by differential run)",
         "bbolt transaction atomicity and OnCommit semantics (C11's assumption): commit handlers run only after a successful commit",
-        "the commit-failure decorator of the harness rolls the bdb transaction back and returns an error",
+        "the commit-failure decorator of the harness (both engines; wallet-restart op flag cf=1) rolls the bdb transaction back and returns an error",
         "hand-written model BtcwVerif/Model/WalletRestart.lean of the wallet-level requests (tied by differential run against a real wallet.Wallet "
         "and a second wallet opened on a copy of the database file after every request)",
         "wallet level: the harness resolves addresses to (xpub, branch, index) by its own BIP32 derivation (btcd hdkeychain/btcutil)",
